@@ -28,16 +28,22 @@ package seccomp
 //@ type Program
 //@   field G GState
 
+// Assumption (listed in evidence): label counters stay below 2^62 — reaching it needs 2^62 NewLabel calls.
+//@ type Label
+//@   invariant @label_range 0 - 4611686018427387904 < self && self < 4611686018427387904
+
+//@ macro fresh(p) = freshAbove(p.G, p.nextLabel)
+
 //@ func NewProgram() Program   properties C01 C03 C05 C06
 //@   ensures @empty len(result.instructions) == 0 && len(result.jumps) == 0 && result.nextLabel == 1
 //@   ensures @labels nonnil(result.labels) && card(result.labels) == 0
 
 //@ func (p *Program) NewLabel() Label   properties C01 C02 C03 C06
 //@   requires p != nil
-//@   requires p.nextLabel < 4611686018427387904
 //@   modifies p
 //@   ensures @next result == old(p.nextLabel) + 1 && p.nextLabel == result
 //@   ensures @frame p.G == old(p.G) && p.instructions == old(p.instructions) && p.jumps == old(p.jumps) && p.labels == old(p.labels)
+//@   ensures @fresh fresh(old(p)) ==> fresh(p) && !g_taken(p.G)[result]
 
 //@ func (p *Program) currentIndex() Index   properties C06
 //@   requires p != nil
@@ -50,6 +56,7 @@ package seccomp
 //@   ensures @sem p.G == stepJif(old(p.G), cond, val, trueLabel, falseLabel)
 //@   ensures @insn len(p.instructions) == len(old(p.instructions)) + 1 && istype(p.instructions[len(p.instructions)-1], bpf.JumpIf)
 //@   ensures @frame p.nextLabel == old(p.nextLabel) && p.labels == old(p.labels)
+//@   ensures @fresh fresh(old(p)) && trueLabel <= old(p.nextLabel) && falseLabel <= old(p.nextLabel) ==> fresh(p)
 
 //@ func (p *Program) SetLabel(label Label)   properties C01 C02 C03 C06
 //@   requires p != nil && nonnil(p.labels)
@@ -57,14 +64,15 @@ package seccomp
 //@   ghost p.G = stepMark(p.G, label) at exit
 //@   ensures @sem p.G == stepMark(old(p.G), label)
 //@   ensures @frame p.nextLabel == old(p.nextLabel) && p.instructions == old(p.instructions) && p.jumps == old(p.jumps) && nonnil(p.labels)
+//@   ensures @fresh fresh(old(p)) ==> fresh(p)
 
 //@ func (p *Program) JmpIfTrue(cond bpf.JumpTest, val uint32, trueLabel Label)   properties C01 C02 C03 C05 C06
 //@   requires p != nil && nonnil(p.labels)
-//@   requires p.nextLabel < 4611686018427387904
 //@   modifies p
 //@   ensures @sem p.G == stepMark(stepJif(old(p.G), cond, val, trueLabel, old(p.nextLabel) + 1), old(p.nextLabel) + 1)
 //@   ensures @frame p.nextLabel == old(p.nextLabel) + 1 && nonnil(p.labels)
 //@   ensures @insn len(p.instructions) == len(old(p.instructions)) + 1
+//@   ensures @fresh fresh(old(p)) && trueLabel <= old(p.nextLabel) ==> fresh(p) && !g_taken(old(p.G))[old(p.nextLabel) + 1]
 
 //@ func (p *Program) Ret(action Action)   properties C01 C05 C06
 //@   requires p != nil
@@ -73,6 +81,7 @@ package seccomp
 //@   ensures @sem {C01} p.G == stepRet(old(p.G), enc(action))
 //@   ensures @insn len(p.instructions) == len(old(p.instructions)) + 1 && isRetOf(p.instructions[len(p.instructions)-1], enc(action))
 //@   ensures @frame p.nextLabel == old(p.nextLabel) && p.labels == old(p.labels) && p.jumps == old(p.jumps)
+//@   ensures @fresh fresh(old(p)) ==> fresh(p)
 
 //@ func (p *Program) LdHi(arg uint32)   properties C02 C05
 //@   requires p != nil
@@ -82,6 +91,7 @@ package seccomp
 //@   ensures @sem {C02} p.G == mkG(g_live(old(p.G)), ite(g_live(old(p.G)), hi64(ev_args(ev)[arg]), g_A(old(p.G))), g_done(old(p.G)), g_rval(old(p.G)), g_taken(old(p.G)), g_tA(old(p.G)))
 //@   ensures @insn {C05} len(p.instructions) == len(old(p.instructions)) + 1 && validLoad(p.instructions[len(p.instructions)-1])
 //@   ensures @frame p.nextLabel == old(p.nextLabel) && p.labels == old(p.labels) && p.jumps == old(p.jumps)
+//@   ensures @fresh fresh(old(p)) ==> fresh(p)
 
 //@ func (p *Program) LdLo(arg uint32)   properties C02 C05
 //@   requires p != nil
@@ -91,7 +101,83 @@ package seccomp
 //@   ensures @sem {C02} p.G == mkG(g_live(old(p.G)), ite(g_live(old(p.G)), lo64(ev_args(ev)[arg]), g_A(old(p.G))), g_done(old(p.G)), g_rval(old(p.G)), g_taken(old(p.G)), g_tA(old(p.G)))
 //@   ensures @insn {C05} len(p.instructions) == len(old(p.instructions)) + 1 && validLoad(p.instructions[len(p.instructions)-1])
 //@   ensures @frame p.nextLabel == old(p.nextLabel) && p.labels == old(p.labels) && p.jumps == old(p.jumps)
+//@   ensures @fresh fresh(old(p)) ==> fresh(p)
 
 // nativeEndian is assigned once by init() (not verified: unsafe); it is one of the two orders.
 //@ global nativeEndian immutable
 //@ axiom @endian (nativeEndian == binary.LittleEndian) == le && (nativeEndian == binary.BigEndian) == !le
+
+// ---------------------------------------------------------------------------
+// Layer P: policy compilation (filter.go)
+// ---------------------------------------------------------------------------
+
+// allHold: every condition of the list is satisfied by the ghost event (C02/C03: unsigned 64-bit relations of spec/policy.smt2)
+//@ macro allHoldUpTo(list, n) = forall(q_, 0, n, holds(list[q_], ev))
+// anyList: one of the first k condition lists of entry s is satisfied
+//@ macro anyList(s, k) = exists(j_, 0, k, allHoldUpTo(s.Conditions[j_], len(s.Conditions[j_])))
+//@ macro entryMatches(s) = (ev_nr(ev) == s.Num && (len(s.Conditions) == 0 || anyList(s, len(s.Conditions))))
+// semValid: what C03/C07 assume of a conditional entry (>= 1 condition per list, implemented operations)
+//@ macro semValid(s) = forall(a_, 0, len(s.Conditions), len(s.Conditions[a_]) >= 1 && forall(b_, 0, len(s.Conditions[a_]), knownOp(s.Conditions[a_][b_].Operation)))
+//@ macro argsValid(s) = forall(a_, 0, len(s.Conditions), forall(b_, 0, len(s.Conditions[a_]), s.Conditions[a_][b_].Argument <= 5))
+
+// Quantifier bookkeeping, proved once and instantiated explicitly (so that the compile-path obligations are ground).
+//@ lemma allHoldZero(list []Condition)
+//@   ensures allHoldUpTo(list, 0)
+//@ lemma allHoldStep(list []Condition, i int, c Condition)
+//@   requires 0 <= i && i < len(list) && c == list[i]
+//@   ensures allHoldUpTo(list, i+1) == (allHoldUpTo(list, i) && holds(c, ev))
+//@ lemma anyListZero(s SyscallWithConditions)
+//@   ensures !anyList(s, 0)
+//@ lemma anyListStep(s SyscallWithConditions, k int, list []Condition, n int)
+//@   requires 0 <= k && k < len(s.Conditions) && list == s.Conditions[k] && n == len(list)
+//@   ensures anyList(s, k+1) == (anyList(s, k) || allHoldUpTo(list, n))
+//@ lemma semInst(s SyscallWithConditions, k int, list []Condition, i int, c Condition)
+//@   requires 0 <= k && k < len(s.Conditions) && list == s.Conditions[k] && 0 <= i && i < len(list) && c == list[i]
+//@   ensures semValid(s) ==> len(list) >= 1 && knownOp(c.Operation)
+//@ lemma semInstList(s SyscallWithConditions, k int, list []Condition)
+//@   requires 0 <= k && k < len(s.Conditions) && list == s.Conditions[k]
+//@   ensures semValid(s) ==> len(list) >= 1
+//@ lemma argsInst(s SyscallWithConditions, k int, list []Condition, i int, c Condition)
+//@   requires argsValid(s) && 0 <= k && k < len(s.Conditions) && list == s.Conditions[k] && 0 <= i && i < len(list) && c == list[i]
+//@   ensures c.Argument <= 5
+
+//@ func (s SyscallWithConditions) Assemble(p *Program, action Label)   properties C02 C03 C05 C07
+//@   requires p != nil && nonnil(p.labels)
+//@   requires 1 <= action && action <= p.nextLabel
+//@   requires fresh(p)
+//@   requires @args_valid argsValid(s)
+//@   modifies p
+//@   let G0 = p.G
+//@   let N0 = p.nextLabel
+//@   let hdr = ev_nr(ev) == s.Num
+//@   let pre = g_live(p.G) && g_A(p.G) == ev_nr(ev)
+//@   let sem = semValid(s)
+//@   let n = len(s.Conditions)
+//@   ensures @live {C03} pre && sem ==> g_live(p.G) == !(hdr && (n == 0 || anyList(s, n)))
+//@   ensures @taken_action {C03} pre && sem ==> g_taken(p.G)[action] == (g_taken(G0)[action] || (hdr && (n == 0 || anyList(s, n))))
+//@   ensures @no_leak {C03} pre && sem && g_live(p.G) ==> g_A(p.G) == ev_nr(ev)
+//@   ensures @dead !g_live(G0) ==> !g_live(p.G) && g_taken(p.G)[action] == g_taken(G0)[action]
+//@   ensures @done g_done(p.G) == g_done(G0) && g_rval(p.G) == g_rval(G0)
+//@   ensures @fresh fresh(p) && p.nextLabel >= N0 && nonnil(p.labels)
+//@   use anyListZero(s) at before loop 1
+//@   use semInstList(s, k, conditions) at loop 1 body
+//@   use allHoldZero(conditions) at before loop 2
+//@   use argsInst(s, k, conditions, i, c) at loop 2 body
+//@   use semInst(s, k, conditions, i, c) at loop 2 body
+//@   use allHoldStep(conditions, i, c) at loop 2 end
+//@   use anyListStep(s, k, conditions, i) at after loop 2
+//@   loop 1 binder k
+//@     invariant @struct p != nil && nonnil(p.labels) && p.nextLabel >= N0 + 2 && nextSyscall == N0 + 1
+//@     invariant @fresh fresh(p)
+//@     invariant @done g_done(p.G) == g_done(G0) && g_rval(p.G) == g_rval(G0)
+//@     invariant @sem {C03} pre && sem ==> (g_taken(p.G)[action] == (g_taken(G0)[action] || (hdr && anyList(s, k))) && g_taken(p.G)[nextSyscall] == !hdr && g_live(p.G) == (hdr && !anyList(s, k)))
+//@     invariant @dead !g_live(G0) ==> !g_live(p.G) && g_taken(p.G)[action] == g_taken(G0)[action] && !g_taken(p.G)[nextSyscall]
+//@   loop 2 binder i
+//@     invariant @struct p != nil && nonnil(p.labels) && p.nextLabel >= noMatch && noMatch >= N0 + 3
+//@     invariant @fresh fresh(p)
+//@     invariant @done g_done(p.G) == g_done(G0) && g_rval(p.G) == g_rval(G0)
+//@     invariant @live {C02 C03} pre && sem ==> g_live(p.G) == (hdr && !anyList(s, k) && allHoldUpTo(conditions, i) && i < len(conditions))
+//@     invariant @nomatch {C02 C03} pre && sem ==> g_taken(p.G)[noMatch] == (hdr && !anyList(s, k) && !allHoldUpTo(conditions, i))
+//@     invariant @action {C02 C03} pre && sem ==> g_taken(p.G)[action] == (g_taken(G0)[action] || (hdr && anyList(s, k)) || (hdr && !anyList(s, k) && i == len(conditions) && allHoldUpTo(conditions, i)))
+//@     invariant @next pre && sem ==> g_taken(p.G)[nextSyscall] == !hdr
+//@     invariant @dead !g_live(G0) ==> !g_live(p.G) && g_taken(p.G)[action] == g_taken(G0)[action] && !g_taken(p.G)[nextSyscall] && !g_taken(p.G)[noMatch]
